@@ -61,13 +61,25 @@ def is_regular(case):
 
 
 def class_mass_positive(aff, case):
-    """every class has non-zero (saliency weighted) mass in every slice"""
+    """every class has non-zero (saliency weighted) mass in every slice, and
+    in every group of observations over which the mixture weights are pooled
+    (weight_constant_axis)"""
     aff = np.broadcast_to(aff, case.aff_shape)
     s = case.opts.get('saliency')
     if s is not None:
         aff = aff * s[..., None, :]
     mass = aff.sum(axis=-1)
-    return bool(np.all(mass > 1e-200)) and bool(np.all(np.isfinite(mass)))
+    if not (np.all(mass > 1e-200) and np.all(np.isfinite(mass))):
+        return False
+    wca = case.opts.get('weight_constant_axis', (-1,))
+    nd = aff.ndim
+    axes = [wca % nd] if isinstance(wca, int) else sorted(a % nd for a in wca)
+    axes = tuple(a for a in axes if a != nd - 2)
+    if axes:
+        pooled = aff.sum(axis=axes)
+        if not np.all(pooled > 1e-200):
+            return False
+    return True
 
 
 def weights_positive(model):
